@@ -636,7 +636,8 @@ def applyLock (db : DB) (c : Cmd) (data : Option Bytes) (b : LockBranch) : W :=
     let w := db.enter c.key
     let c' := lockCmdOf w.k c b
     let w3 := (((w.procData .lock c' (frameOf c' data) h).updateLocked h c').when (!has c'.flag F_FROM_AOF) (·.journalLock h AOF_UPDATED))
-    w3.reply c' RESULT_LOCKED_ERROR (w3.k.getR h).depth w.lockData
+    -- (fix: C04) the update may have raised the hold's Count: `wakeUpWaitLocks` after the reply
+    (w3.reply c' RESULT_LOCKED_ERROR (w3.k.getR h).depth w.lockData).wake
   | .relockNoHold h =>
     let w := db.enter c.key
     w.reply c RESULT_SUCCED (w.k.getR h).depth w.lockData
@@ -644,7 +645,8 @@ def applyLock (db : DB) (c : Cmd) (data : Option Bytes) (b : LockBranch) : W :=
     let w := db.enter c.key
     let w5 := (((((w.modR h (fun r => { r with depth := r.depth + 1 })).modK incLocked).procData .lock c (frameOf c data) h).updateLocked h c).journalLock h
       AOF_UPDATED).ctr (fun x => { x with lockCount := x.lockCount + 1, lockedCount := x.lockedCount + 1 })
-    w5.reply c RESULT_SUCCED (w5.k.getR h).depth w.lockData
+    -- (fix: C04) the re-lock replaces the hold's command: `wakeUpWaitLocks` after the reply
+    (w5.reply c RESULT_SUCCED (w5.k.getR h).depth w.lockData).wake
   | .relockRefused h =>
     let w := db.enter c.key
     w.reply c RESULT_LOCKED_ERROR (w.k.getR h).depth w.lockData
@@ -726,7 +728,8 @@ def applyUnlock (db : DB) (c : Cmd) (data : Option Bytes) (b : UnlockBranch) : W
     let r := w.k.getR x
     let w5 := ((((((w.modR x (fun r => { r with timeouted := true })).dropLongT x).modK (·.settleWait)).ctr
       (fun y => { y with waitCount := y.waitCount - 1 })).removeIfZero).ctr (fun y => { y with unLockCount := y.unLockCount + 1 }))
-    (w5.reply c RESULT_LOCKED_ERROR 0 w5.lockData).reply { r.cmd with conn := r.conn } RESULT_UNLOCK_ERROR 0 w5.lockData
+    -- (fix: C04) `wakeUpWaitLocks` unconditionally after the two replies (a reclaimed key record has `waited = false`: nothing happens)
+    ((w5.reply c RESULT_LOCKED_ERROR 0 w5.lockData).reply { r.cmd with conn := r.conn } RESULT_UNLOCK_ERROR 0 w5.lockData).wake
   | .dec h c' =>
     let w1 := (w.modR h (fun r => { r with depth := r.depth - 1 })).modK (fun k => { k with locked := k.locked - 1 })
     let w4 := (((w1.procData .unlock c' (frameOf c' data) h).journalUnlock h (has c'.flag F_FROM_AOF) true AOF_UPDATED).ctr
@@ -768,7 +771,8 @@ def W.fireTimeout (w : W) (rid : Nat) : W :=
   else
     let w5 := (((((w.modR rid (fun r => { r with timeouted := true })).modK (·.settleWait)).ctr
       (fun y => { y with waitCount := y.waitCount - 1 })).dropT rid).ctr (fun y => { y with timeoutedCount := y.timeoutedCount + 1 }))
-    w5.reply { r.cmd with conn := r.conn } RESULT_TIMEOUT 0 w5.lockData
+    -- (fix: C04) `wakeUpWaitLocks` after the TIMEOUT notice of a waiter
+    (w5.reply { r.cmd with conn := r.conn } RESULT_TIMEOUT 0 w5.lockData).wake
 
 def fireTimeout (db : DB) (key rid : Nat) : DB × List Reply :=
   let w := (db.openKey key).fireTimeout rid
@@ -829,10 +833,16 @@ def W.visitExpire (w : W) (slot : Bool) (rid : Nat) : Option W :=
   else if slot && r.expT > w.db.now then some ((w.modR rid (fun r => { r with eChecked := r.eChecked + 1 })).addExpried rid)
   else none
 
+/-- the sweeper collects a due long-table entry: `LongWaitLockQueue.Pop` resets `longWaitIndex`, the entry is now in the sweeper's hand
+(a wake pass that runs before its `doTimeOut` — since the C04 fix `doTimeOut` of an earlier entry ends with one — finds no long-table
+entry to remove; `doTimeOut` then drops the sweeper's reference of the tombstoned record) -/
+def W.collectT (w : W) (rid : Nat) : W :=
+  w.modR rid (fun r => { r with tSched := r.tSched.map (fun s => { s with long := false }) })
+
 def timeoutStep (slot : Bool) (acc : DB × List Ent) (e : Ent) : DB × List Ent :=
   match (acc.1.openKey e.key).visitTimeout slot e.rid with
   | some w => (w.commit, acc.2)
-  | none => (acc.1, acc.2 ++ [e])
+  | none => (if slot then acc.1 else ((acc.1.openKey e.key).collectT e.rid).commit, acc.2 ++ [e])
 
 def expireStep (slot : Bool) (acc : DB × List Ent) (e : Ent) : DB × List Ent :=
   match (acc.1.openKey e.key).visitExpire slot e.rid with
